@@ -363,10 +363,10 @@ TASKS = {"fuzz": task_fuzz, "large": task_large, "products": task_products}
 
 
 def plan(tier, seed):
-    n, nsh = (4000, 14) if tier == "quick" else (60000, 14)
+    n, nsh = (4000, 14) if tier == "quick" else (500000, 14)
     t = [("fuzz", dict(seed=seed, shard=s, n=n, tier=tier)) for s in range(nsh)]
     t.append(("large", dict(seed=seed, shard=0, sizes=[100000, 300000] if tier == "quick" else [100000, 300000, 1000000])))
-    t += [("products", dict(seed=seed, shard=s, n=150 if tier == "quick" else 1500)) for s in range(4)]
+    t += [("products", dict(seed=seed, shard=s, n=150 if tier == "quick" else 12000)) for s in range(4 if tier == "quick" else 8)]
     return t
 
 
